@@ -251,6 +251,43 @@ pub fn enum_routing(i: u64) -> String {
     format!("{} D:{}:11,D:0009:12,D:ffff:13,D:{}:14,D:0009:15 oeoeoeoeoeoeoeoe {}", own, own, own, list(&ops, ";"))
 }
 
+/// the `i`-th exchange history: every receive queue of at most 4 items over {nothing, link error, ack for the device, ack for
+/// another device, ack for everybody, a button event for the device, an ack for the device with the error flag} x
+/// {exchange_packet, exchange_packets} x {capture-all or not} x {request to another device, request to the device itself},
+/// on devices 0x0005 and 0xffff with one registered handler; the exchange is followed by a draining capture-all
+/// exchange_packets and a tick, which show what was left queued
+pub fn enum_exchange(i: u64) -> String {
+    let own = if i % 2 == 0 { 0x0005u16 } else { 0xffff };
+    let mut i = i / 2;
+    let op = i % 8;
+    i /= 8;
+    let mut len = 0u32;
+    loop {
+        let c = 7u64.pow(len);
+        if i < c || len == 4 {
+            break;
+        }
+        i -= c;
+        len += 1;
+    }
+    let item = |k: u64, pos: u32| -> String {
+        let t = 0x10 + pos as u16; // transmitter address: tells the queued replies apart
+        match k {
+            0 => "n".into(),
+            1 => "e".into(),
+            2 => format!("D:{:04x}:0003{:04x}", own, t),
+            3 => format!("D:0009:0003{:04x}", t),
+            4 => format!("D:ffff:0003{:04x}", t),
+            5 => format!("D:{:04x}:0007{:04x}01", own, t),
+            _ => format!("E:{:04x}:0003{:04x}", own, t),
+        }
+    };
+    let rxq: Vec<String> = (0..len).rev().map(|k| item((i / 7u64.pow(k)) % 7, k)).collect();
+    let req = if op & 4 == 0 { "D:0009:0003aaaa".to_string() } else { format!("D:{:04x}:0003aaaa", own) };
+    let first = format!("{}/3/{}/{}", if op & 1 == 0 { "xchg" } else { "xall" }, if op & 2 == 0 { 'o' } else { 'c' }, req);
+    format!("{:04x} {} - add/o/0/-;{};xall/3/c/D:0009:0003bbbb;tick", own, list(&rxq, ","), first)
+}
+
 fn res_str(res: std::thread::Result<Result<(), ProtocolError>>) -> String {
     match res {
         Err(_) => "panic".into(),
